@@ -10,7 +10,7 @@
 From Coq Require Import ZArith NArith Bool List.
 From PcoreV Require Import Model.Base Model.Heap Model.Coll Model.CollHeap
      Proofs.HeapProofs Proofs.CollHeapProofs Proofs.CollHeapDecide Proofs.CollHeapFrame
-     Model.CollHeapX Proofs.CollHeapXProofs
+     Model.CollHeapX Proofs.CollHeapXProofs Model.CollHeapA Proofs.CollHeapAProofs
      Model.Ty Model.InferHeap Proofs.InferHeapProofs.
 Import ListNotations.
 
@@ -148,6 +148,86 @@ Example C08_put_in_place_breaks_frame :
   | _ => PNil
   end = PHash [(a, PInt 99); (b, PInt 2)]%Z.
 Proof. exact put_in_place_breaks_frame. Qed.
+
+(* ----------------------------------------------------------------------------------------------------------------
+   READ ACCESSORS THAT HAND OUT GO SLICES, and the writes of the caller into what came back (Model/CollHeapA.v):
+   histories in which, besides every step above, a step may be
+     dst := make([]T, dl, dc) (nil, empty, empty with room, holding something); res := v.AppendTo(dst) (Array: one
+     append(dst, elements...); Hash: one append per entry; HashEntry: append(dst, key, value)) or
+     res := h.AppendEntriesTo(dst); then the CALLER assigns pool values to any cells of res[:cap(res)] - elements and
+     spare capacity -; the pool gets the slice wrapped as an Array / Hash (no copy).
+   This is what the creators of Enum, Tuple and Callable do with their first list argument (AppendTo(make(0, n+k)),
+   append the k arguments that follow, assign the last cell, WrapValues).  `append` is the Go append of Model/Heap.v:
+   nothing in the model says that the result is disjoint from the receiver. *)
+
+(* The accessor returns fresh storage: for every receiver (a whole array, a view, an array with spare capacity, a
+   hash, an entry), every destination and every growth policy the slice that is handed out lies in a backing array
+   that did not exist before the call. *)
+Theorem C08_a_accessor_fresh :
+  forall (g : nat -> nat -> nat) (st : hstate) (entries : bool) (r dl dc dx : nat) (ws : list (nat * nat)),
+    state_wf st ->
+    match snd (astep g st (AAccess entries r dl dc dx ws)) with
+    | RVal _ => exists res, st_pool (fst (astep g st (AAccess entries r dl dc dx ws))) =
+                            (st_pool st ++ [if entries then HHash res else HArr res])%list /\
+                            (length (st_heap st) <= s_addr res)%nat
+    | RErr _ => True
+    end.
+Proof. exact access_fresh. Qed.
+Print Assumptions C08_a_accessor_fresh.
+
+(* Hence a step - the call and EVERY write of the caller into the result, within its whole capacity - leaves every
+   cell that existed before the step alone. *)
+Theorem C08_a_step_extends :
+  forall (g : nat -> nat -> nat) (st : hstate) (o : aop), state_wf st ->
+    exists ext, st_heap (fst (astep g st o)) = (st_heap st ++ ext)%list.
+Proof. exact astep_prefix. Qed.
+Print Assumptions C08_a_step_extends.
+
+Theorem C08_a_wf_invariant :
+  forall g ops, state_wf (fst (arun g empty_state ops)).
+Proof. intros g ops. apply arun_wf, empty_wf. Qed.
+Print Assumptions C08_a_wf_invariant.
+
+Theorem C08_a_frame :
+  forall (g : nat -> nat -> nat) (ops : list aop) (st : hstate), state_wf st ->
+  forall (fuel : nat) (x : hval), In x (st_pool st) ->
+    observe fuel (st_heap (fst (arun g st ops))) x = observe fuel (st_heap st) x.
+Proof. exact aframe. Qed.
+Print Assumptions C08_a_frame.
+
+Theorem C08_a_final_obs_stable :
+  forall g ops1 ops2,
+    firstn (length ops1) (final_obs (fst (arun g empty_state (ops1 ++ ops2)))) =
+    final_obs (fst (arun g empty_state ops1)).
+Proof. exact afinal_obs_stable. Qed.
+Print Assumptions C08_a_final_obs_stable.
+
+Theorem C08_a_results_stable :
+  forall g ops,
+    Forall2 out_matches (snd (arun g empty_state ops)) (final_obs (fst (arun g empty_state ops))).
+Proof. intros g ops. exact (aresults_stable g ops empty_state empty_wf). Qed.
+Print Assumptions C08_a_results_stable.
+
+(* the extended histories of the part above are these histories without accessor steps *)
+Theorem C08_a_extends_x :
+  forall g ops st, arun g st (map ABase ops) = xrun g st ops.
+Proof. exact arun_base. Qed.
+Print Assumptions C08_a_extends_x.
+
+(* Non-vacuity and sensitivity: x = ['a','b','c','d'], s = x.Slice(0, 2), res := s.AppendTo(nil), res[:cap(res)][2] =
+   true.  With the accessor as it is x is unchanged and the result is ['a','b'] (the write went to a cell nobody sees,
+   or nowhere); with an accessor that hands out the receiver's own slice when the destination is empty (the defect
+   class of the seeded change C08-m8) x has become ['a','b',true,'d']. *)
+Example C08_aliasing_accessor_breaks_frame :
+  let a := PStr [97%N] in let b := PStr [98%N] in let c := PStr [99%N] in let d := PStr [100%N] in
+  let ops := [ABase (XBase (OLit (PArr [a; b; c; d]))); ABase (XBase (OSlice 0 0%Z 2%Z)); ABase (XBase (OLit (PBool true)))] in
+  let st := fst (arun grow_exact empty_state ops) in
+  let st1 := fst (astep grow_exact st (AAccess false 1 0 0 2 [(2, 2)]%nat)) in
+  let st2 := aliasing_access st 1 [(2, 2)]%nat in
+  observe obs_fuel (st_heap st1) (P (st_pool st1) 0) = PArr [a; b; c; d] /\
+  observe obs_fuel (st_heap st1) (P (st_pool st1) 3) = PArr [a; b] /\
+  observe obs_fuel (st_heap st2) (P (st_pool st2) 0) = PArr [a; b; PBool true; d].
+Proof. exact aliasing_accessor_breaks_frame. Qed.
 
 (* ================================================================================================================
    Results that are TYPES.  "Inferring its type" is one of the operations of the property, and the type object it
